@@ -131,6 +131,47 @@ func TestVerifBoundedC05Cache(t *testing.T) {
 			if n > 1 {
 				variants["shorter"] = append([]byte(nil), msg[:n-1]...)
 			}
+			// the same message under an ALTERED signature (first / middle / last byte flipped, one byte cut off), and the
+			// valid pair offered under ANOTHER key of the same type: a cache hit for the verified triple must not answer
+			// for either (a cache key that leaves the signature or the key out would)
+			sigVariants := map[string][]byte{}
+			for name, pos := range map[string]int{"sigfirst": 0, "sigmiddle": len(sig) / 2, "siglast": len(sig) - 1} {
+				sv := append([]byte(nil), sig...)
+				sv[pos] ^= 0x01
+				sigVariants[name] = sv
+			}
+			sigVariants["sigshorter"] = append([]byte(nil), sig[:len(sig)-1]...)
+			for name, sv := range sigVariants {
+				evals++
+				accepted := func() (ok bool) {
+					defer func() { _ = recover() }() // a malformed signature may be rejected by a panic in the library
+					return pub.VerifyBytes(msg, sv)
+				}()
+				if accepted {
+					viol++
+					if viol <= 3 {
+						fmt.Printf("BOUNDED-VIOLATION kind=cachehit.signature keytype=%d msglen=%d variant=%s: after the valid triple was verified, an ALTERED signature is accepted for the same key and message\n", ty, n, name)
+					}
+				}
+				evals++
+				a := BatchTuple{PublicKey: pub, Message: msg, Signature: sig}
+				b := BatchTuple{PublicKey: pub, Message: msg, Signature: sv}
+				if a.Key() == b.Key() {
+					viol++
+					if viol <= 3 {
+						fmt.Printf("BOUNDED-VIOLATION kind=cachekey.signature keytype=%d msglen=%d variant=%s: two different signatures over one message share a cache key\n", ty, n, name)
+					}
+				}
+			}
+			if other, e := mk[ty](); e == nil {
+				evals++
+				if other.PublicKey().VerifyBytes(msg, sig) {
+					viol++
+					if viol <= 3 {
+						fmt.Printf("BOUNDED-VIOLATION kind=cachehit.key keytype=%d msglen=%d: after the valid triple was verified, the pair is accepted under another public key\n", ty, n)
+					}
+				}
+			}
 			for name, m := range variants {
 				evals++
 				if pub.VerifyBytes(m, sig) {
@@ -151,5 +192,5 @@ func TestVerifBoundedC05Cache(t *testing.T) {
 			}
 		}
 	}
-	fmt.Printf("BOUNDED-SUMMARY name=c05_cache evaluations=%d distinct_nontrivial=%d violations=%d bound=keytypes:4,msglens:%d(1..600),variants:5,seed:%d\n", evals, evals, viol, len(lengths), seed)
+	fmt.Printf("BOUNDED-SUMMARY name=c05_cache evaluations=%d distinct_nontrivial=%d violations=%d bound=keytypes:4,msglens:%d(1..600),variants:5msg+4sig+1key,seed:%d\n", evals, evals, viol, len(lengths), seed)
 }
